@@ -13,3 +13,19 @@ META["C10"] = dict(
     level_text="Exploration with exhaustive sub-spaces: every bool/byte/int16/uint16 value through every stored-width x read-width pair is enumerated; thorough enumerates all 2^32 int32/uint32/float32 values; 64-bit and float64 are covered on all exponent/varint/zig-zag edges plus random values. The oracle (decode(encode(v)) == v bit-exactly, sizes agree, cross-width read returns v iff representable else error) is independent of the implementation.",
     level_note="Trusts Go's float32(v) conversion as the definition of correct rounding (cross-checked against math/big in a self-test). 64-bit domains are sampled, not enumerated.",
 )
+
+META["C01"] = dict(
+    engine="codec",
+    design_ref="DESIGN.md 3/C01",
+    technique="property-based testing: rapid tree/program generator with boundary knobs + bounded-exhaustive enumeration (<=3 nodes x styles) + deterministic boundary sweep; round-trip oracle through every public accessor plus an independent reference decoder",
+    level_text="Exploration with an exhaustive sub-space: all trees of <=3 nodes over a 31-value/8-tag boundary alphabet times every write-style combination are enumerated (~4.9e5 programs); every compact/big boundary named in the statement is constructed on both sides by the sweep (the driver fails the check if a class has zero hits); beyond that rapid-generated trees (depth to 22, 300 fields, 64 KiB payloads, Any/Copy/Merge/Clone, 6 root constructors). Two-directional oracle: every written field/element found with its value, no other tag present, absent tags read as zero, parser consumes exactly the bytes; an independent decoder must read the same tree.",
+    level_note="Sampling beyond the enumerated space; struct bodies are opaque scalar sequences; trusts harness/refcodec as second reader (cross-checked against the library on every case).",
+)
+
+META["C08"] = dict(
+    engine="codec",
+    design_ref="DESIGN.md 3/C08",
+    technique="property-based differential testing against an independently written reference encoder/decoder, metamorphic history-independence relation (fresh vs reset vs failed-then-reset vs pooled vs dirty buffer), frozen golden corpus and hand-written literal layouts",
+    level_text="Exploration: library bytes are compared byte-for-byte with harness/refcodec for every generated program (effective write order tracked through Copy/Merge), reference-encoded bytes are read back through the library, the same program is re-run under five writer/buffer histories and must give identical bytes, and 1558 golden (tree, bytes) pairs frozen at the pinned commit plus 32 hand-derived literals pin the layout against an error shared by library and reference.",
+    level_note="The reference codec is the trusted statement of the format (pinned by literals + golden corpus). Pool behaviour under concurrency is C18's subject, not this check's.",
+)
